@@ -263,13 +263,22 @@ fn c01<X: L>(c: &mut Ctx, n: usize) {
     for (a, b) in pairs.iter() {
         let xa = X::mk(n, a);
         let xb = X::mk(n, b);
+        // borrowed operands must come back unchanged: their printed form before and after every call is compared
+        // (an `operand_changed` line has no counterpart in the model and is reported as such)
+        let before = (fl(&xa), fl(&xb));
         for (form, f) in nforms.iter() {
             let r = call(|| f(&xa));
-            c.emit(&format!("not.{}", form), ty, &[fl(&xa)], r.map(|r| fl(&r)));
+            c.emit(&format!("not.{}", form), ty, &[before.0.clone()], r.map(|r| fl(&r)));
+            if (fl(&xa), fl(&xb)) != before {
+                c.emit(&format!("operand_changed.not.{}", form), ty, &[before.0.clone(), fl(&xa)], Some("changed".into()));
+            }
         }
         for (op, form, f) in bforms.iter() {
             let r = call(|| f(&xa, &xb));
-            c.emit(&format!("{}.{}", op, form), ty, &[fl(&xa), fl(&xb)], r.map(|r| fl(&r)));
+            c.emit(&format!("{}.{}", op, form), ty, &[before.0.clone(), before.1.clone()], r.map(|r| fl(&r)));
+            if (fl(&xa), fl(&xb)) != before {
+                c.emit(&format!("operand_changed.{}.{}", op, form), ty, &[before.0.clone(), before.1.clone(), fl(&xa), fl(&xb)], Some("changed".into()));
+            }
         }
     }
 }
